@@ -27,8 +27,8 @@ RULE = (
     "status, context) summed over (machine, engine)"
 )
 BOUNDS = {
-    "quick": "TREE(N<=4): 1139 machines x 3 engines, closure per machine; FOLLOW(N<=3)",
-    "thorough": "TREE(N<=5): 8086 machines x 3 engines, closure per machine; FOLLOW(N<=4)",
+    "quick": "TREE(N<=4): 1139 machines + 9 parallel skeletons C(P(s1,s2),A) x 3 engines, closure per machine; FOLLOW(N<=3)",
+    "thorough": "TREE(N<=5): 8086 machines + 54 parallel skeletons x 3 engines, closure per machine; FOLLOW(N<=4)",
 }
 ASSUMPTIONS = [
     "canonical state = (configuration, history memory, status, context, output, error flag, actors); "
@@ -41,6 +41,7 @@ ENGINES = ("sync", "async", "pure")
 def units(tier: str) -> List[Any]:
     n = 4 if tier == "quick" else 5
     us: List[Any] = [("tree", t) for t in F.trees_upto(n)]
+    us += [("tree", t) for t in F.par_skeletons(tier)]
     us += [("follow", spec) for spec in follow.specs(3 if tier == "quick" else 4)]
     return us
 
@@ -61,7 +62,7 @@ def relation(nodes: Dict[str, F.N], src: str, tgt: str) -> str:
 
 
 def explore_universal(tree, engines=ENGINES, collect=None) -> Dict[str, Any]:
-    cfg, nodes, events = F.universal_config(tree)
+    cfg, nodes, events = F.universal_config(tree, shared=True)
     return explore_generic(
         cfg, nodes, events, label=F.tree_str(tree), replay=dict(kind="tree", tree=tree),
         engines=engines, collect=collect,
@@ -148,7 +149,7 @@ def explore_generic(
                 return []
             return [
                 name for name, e in events.items()
-                if e["src"] in conf and e["kind"] in ("T", "R", "N")
+                if e["src"] in conf and e["kind"] in ("T", "R", "N", "S")
             ]
 
         # start-up observations
@@ -222,7 +223,7 @@ def replay_generic(cfg, nodes, payload, guard_impls=None) -> List[Dict[str, Any]
 def replay(payload) -> List[Dict[str, Any]]:
     if payload["kind"] == "tree":
         tree = _tuplify(payload["tree"])
-        cfg, nodes, events = F.universal_config(tree)
+        cfg, nodes, events = F.universal_config(tree, shared=True)
         return replay_generic(cfg, nodes, payload)
     return follow.replay_c01(payload)
 
